@@ -21,7 +21,7 @@ RULE = ("cases: (1) exhaustive small scope: all 0..2-modification lists over pos
         "count shapes up to 2x2x2x2, all base_name/raw_data suffix relations; (2) random structured documents: "
         "1..3 files x 1..3 runs x 0..4 spectra x 0..2 search results x 0..4 hits, 0..5 modifications "
         "(mostly ascending), 0..3 alternative proteins with mixed prefixes and descriptions, optional "
-        "attributes present/absent, namespace on/off, shuffled child order, duplicate score names; "
+        "attributes present/absent, namespace on/off, shuffled child order, duplicate score names, explicit and default decoy_prefix; "
         "(3) malformed stream: non-XML text, empty file, truncated / garbage-terminated XML, XML without hits, "
         "Percolator score names, missing required attributes, empty file list.  distinct = distinct "
         "(prefix, document trees, rendering styles); non-trivial = >=2 hits, or a hit with >=2 modifications or "
@@ -404,7 +404,10 @@ def _read(case):
             arg = paths[0]
         elif case.get("as_tuple"):
             arg = tuple(paths)
-        df = mokapot.read_pepxml(arg, decoy_prefix=case["prefix"], to_df=True)
+        if case.get("default_prefix"):
+            df = mokapot.read_pepxml(arg, to_df=True)            # decoy_prefix defaults to "decoy_"
+        else:
+            df = mokapot.read_pepxml(arg, decoy_prefix=case["prefix"], to_df=True)
     finally:
         shutil.rmtree(d, ignore_errors=True)
     cols = [str(c) for c in df.columns]
@@ -599,6 +602,9 @@ def gen_exhaustive(ctx):
             cases.append(one_hit_case(h, tags=["exh-label", f"alts={k}",
                                                "all-decoy" if all(pat) else ("all-target" if not any(pat) else "mixed")]))
     # prefix edge cases: empty prefix, prefix == accession, prefix longer than accession, prefix in the description only
+    for prot, alts in [("decoy_P1 d", []), ("P1", ["decoy_P2"]), ("decoy_P1", ["decoy_P2 x"]), ("rev_P1", ["DECOY_P2"])]:
+        cases.append(one_hit_case(mk_hit(prot=prot, alts=alts), prefix="decoy_", tags=["exh-label", "default-prefix"],
+                                  default_prefix=True))
     for prefix, prot in [("", "P1"), ("rev_", "rev_"), ("rev_P1x", "rev_P1"), ("rev_", "P1 rev_P1"), ("rev_", " rev_P1"),
                          ("rev_", "rev_P1"), ("rev_", "REV_P1"), ("rev_", "xrev_P1"), ("decoy_", "decoy_sp|X"), ("rev_", "")]:
         for alts in ([], ["rev_A d"], ["B"]):
@@ -742,7 +748,7 @@ def rand_doc(rng, prefix, nfiles=None, small=False):
 def gen_random(ctx):
     rng = ctx.sub("structured")
     cases = []
-    n = 1400 if ctx.thorough else 260
+    n = 4000 if ctx.thorough else 260
     for k in range(n):
         prefix = rng.choice(["rev_", "rev_", "decoy_", "DECOY_", "XXX", "r", "###REV###"])
         files = rand_doc(rng, prefix)
@@ -755,7 +761,11 @@ def gen_random(ctx):
             tags.append("mods-outside-quantifier")
         if any(h["alts"] for h in hs):
             tags.append("alt-proteins")
-        cases.append(mk_case(files, prefix, tags, as_str=(len(files) == 1 and k % 3 == 0), as_tuple=(k % 5 == 0)))
+        extra = {}
+        if prefix == "decoy_" and k % 2 == 0:
+            extra["default_prefix"] = True
+            tags.append("default-prefix")
+        cases.append(mk_case(files, prefix, tags, as_str=(len(files) == 1 and k % 3 == 0), as_tuple=(k % 5 == 0), **extra))
     return cases
 
 
@@ -774,7 +784,7 @@ def gen_malformed(ctx):
     cases.append(mk_case([mk_file([mk_run([mk_spec([])])])], tags=["malformed", "no-hits"]))
     cases.append(mk_case([mk_file([mk_run([mk_spec([[]])])])], tags=["malformed", "no-hits"]))
     cases.append(mk_case([good(), mk_file([mk_run([mk_spec([[]])])])], tags=["malformed", "no-hits", "after-good"]))
-    n = 500 if ctx.thorough else 130
+    n = 1200 if ctx.thorough else 130
     for k in range(n):
         kind = rng.choice(["trunc", "garbage", "partial", "mismatch", "perc", "perc", "attr", "attr", "nohits", "mix"])
         files = rand_doc(rng, "rev_", nfiles=rng.choice([1, 1, 2, 3]), small=True)
